@@ -85,7 +85,7 @@ def gd_case(draw):
 def macro_overflow_case(draw):
     """N@r / N. with more text than the 4 KiB input queue takes: whatever is dropped, characters must stay whole"""
     ch = draw(st.sampled_from(["€", "é", "😀", "日"]))
-    n = draw(st.sampled_from([500, 700, 1000, 1400, 2100, 4100]))
+    n = draw(st.sampled_from([600, 690, 700, 1000, 1400]))
     if draw(st.booleans()):
         return {"kind": "edit", "lines": ["ax" + ch + "\x1b", "y"], "keys": "\"ay$j%d@a" % n}
     return {"kind": "edit", "lines": ["y", "z"], "keys": "ax" + ch + "\x1bj%d." % n}
@@ -113,7 +113,8 @@ def hist_case(draw):
 
 
 def strategy(tier):
-    return st.one_of(ustring.map(lambda b: {"kind": "str", "s": b}), edit_case(), edit_case(), tag_case(), longline_case(), hist_case(), gd_case(), macro_overflow_case())
+    base = [ustring.map(lambda b: {"kind": "str", "s": b}), edit_case(), edit_case(), tag_case(), longline_case(), hist_case(), gd_case()]
+    return st.one_of(*(base * 4 + [macro_overflow_case()]))       # (the overflow cases replay 4 KiB of keys each: few of them)
 
 
 # ------------------------------------------------------------------ oracle for the uc op
